@@ -6,6 +6,8 @@ int vfh_hs_state(const ssl_t *ssl) { return ssl->hsState; }
 unsigned vfh_flags(const ssl_t *ssl) { return ssl->flags; }
 int vfh_inlen(const ssl_t *ssl) { return ssl->inlen; }
 int vfh_insize(const ssl_t *ssl) { return ssl->insize; }
+/* lengths of fixed-size arrays embedded in ssl_t: an overrun of these stays inside the object and is invisible to ASan */
+int vfh_session_id_len(const ssl_t *ssl) { return ssl->sessionIdLen; }
 int vfh_outlen(const ssl_t *ssl) { return ssl->outlen; }
 int vfh_outsize(const ssl_t *ssl) { return ssl->outsize; }
 /* fingerprint material: master secret (TLS <= 1.2) */
